@@ -87,13 +87,20 @@ def new (k : Family) : Jwk :=
 def fromParams (f : Family) (members : List (String × String)) : Jwk :=
   { kty := f, family := f, members := members }
 
-/-- `Jwk::set_kty`: the parameters are reset to the new type's empty ones -/
+/-- `Jwk::set_kty`: the parameters are reset to the new type's empty ones (`setKtyResetsToNewType`, regenerated: the
+new type is assigned first; otherwise the reset uses the OLD declared type) -/
 def setKty (j : Jwk) (k : Family) : Jwk :=
-  { j with kty := k, family := k, members := (required k).map fun n => (n, "") }
+  let fam := if setKtyResetsToNewType then k else j.kty
+  { j with kty := k, family := fam, members := (required fam).map fun n => (n, "") }
 
-/-- `Jwk::set_params`: refused unless the family equals the declared type -/
+/-- `Jwk::set_params`: the parameters are stored exactly for the (declared type, family) pairs of the regenerated match
+arms; every other pair is refused and nothing is stored (the result is the key and whether the call succeeded) -/
+def setParamsFull (j : Jwk) (f : Family) (members : List (String × String)) : Jwk × Bool :=
+  if setParamsArms.contains (j.kty.tag, f.tag) then ({ j with family := f, members := members }, true) else (j, false)
+
 def setParams (j : Jwk) (f : Family) (members : List (String × String)) : Option Jwk :=
-  if j.kty == f then some { j with family := f, members := members } else none
+  let r := setParamsFull j f members
+  if r.2 then some r.1 else none
 
 def familyOfTag (t : String) : Option Family :=
   if t == "ec" then some .ec else if t == "rsa" then some .rsa else if t == "oct" then some .oct
